@@ -125,11 +125,16 @@ impl MqttShared {
     }
 
     pub(super) fn close(&self) {
+        self.close_io();
+        self.closed.set(true);
+    }
+
+    /// Close io stream and fail pending requests, sink itself is not marked as closed
+    fn close_io(&self) {
         if self.flags.get().contains(Flags::CLIENT) && !self.is_disconnect_sent() {
             let _ = self.encode_packet(codec::Packet::Disconnect);
         }
         self.io.close();
-        self.closed.set(true);
         self.clear_queues();
     }
 
@@ -342,8 +347,13 @@ impl MqttShared {
     }
 
     pub(super) fn pkt_ack(&self, ack: Ack) -> Result<(), ProtocolError> {
+        // sink is closed and queues are cleared, acknowledgements that are still
+        // on the way are not protocol errors
+        if self.closed.get() {
+            return Ok(());
+        }
         self.pkt_ack_inner(ack).inspect_err(|_| {
-            self.close();
+            self.close_io();
         })
     }
 
